@@ -133,4 +133,146 @@ RAW_INDEF = Contract(
     may_raise={'PyAsn1Error': True},
     external=['result-is-a-value'])
 
-CONTRACTS = INTEGER + NULL + [BOOLEAN_CREATE, RAW_INDEF]
+
+
+# ---- SingleItemDecoder.__call__, verified region by region (DESIGN 2.2) ------------------------------------
+def decoder_states():
+    """(stDecodeTag, ..., stStop) = [x for x in range(10)]: names read from the real module's AST"""
+    import ast
+    from pyvc.core import parse_module
+    for n in parse_module(F).body:
+        if isinstance(n, ast.Assign) and isinstance(n.targets[0], ast.Tuple) and \
+                any(isinstance(e, ast.Name) and e.id == 'stDecodeTag' for e in n.targets[0].elts):
+            return {e.id: i for i, e in enumerate(n.targets[0].elts)}
+    raise RuntimeError('decoder states not found')
+
+
+STATES = decoder_states()
+P0 = 'old(substrate.pos)'
+D0 = 'substrate.data[old(substrate.pos)]'
+
+
+def region(name, test, mode, params, **kw):
+    return Contract(id='ber.decoder::SingleItemDecoder.__call__@%s[%s]' % (name, mode), file=F,
+                    qual='SingleItemDecoder.__call__', region=test, is_generator=True,
+                    params=dict(dict(self=PObj('SingleItemDecoder', supportIndefLength=PBool()), substrate=PStream(mode),
+                                     options=POptions()), **params),
+                    globals=dict(STATES), calls={'readFromStream': _read_model(mode)}, **kw)
+
+
+def length_region(mode):
+    return region(
+        'stDecodeLength', 'state is stDecodeLength', mode,
+        dict(tagSet=PConst(None), state=PConst(STATES['stDecodeLength']), length=PConst(None)),
+        properties=['C01', 'C07', 'C09', 'C15'],
+        requires=['substrate.pos < len(substrate.data)'],
+        exit_ensures=[
+            ('short-form', '%s < 128 ==> (length == %s and substrate.pos == %s + 1)' % (D0, D0, P0)),
+            # C09: *every* long form is accepted, leading zero octets included: the value of the octets counts
+            ('long-form-any', '%s > 128 ==> (length == X.be_val(X.sub(substrate.data, %s + 1, %s + 1 + (%s - 128)), 0, '
+                              '%s - 128) and substrate.pos == %s + 1 + (%s - 128))' % (D0, P0, P0, D0, D0, P0, D0)),
+            ('indefinite', '%s == 128 ==> (length == -1 and substrate.pos == %s + 1)' % (D0, P0)),
+            ('next-state', 'state == stGetValueDecoder')],
+        # C15: the indefinite form is refused exactly when the codec says so (DER)
+        raises={'PyAsn1Error': 'substrate.data[substrate.pos] == 128 and not self.supportIndefLength'},
+        may_raise={'EndOfStreamError': True, 'SubstrateUnderrunError': True},
+        loops={2: Loop(index='i', invariant=['length == X.be_val(encodedLength, 0, i)', 'length >= 0'])},
+        external=['short-form', 'long-form-any', 'indefinite', 'next-state'])
+
+
+LENGTH_REGION = [length_region('complete'), length_region('partial')]
+
+
+# -- tag decoding region ---------------------------------------------------------------------------
+def mk_tag(ex, tagClass=None, tagFormat=None, tagId=None):
+    return Obj('Tag', {'tagClass': tagClass, 'tagFormat': tagFormat, 'tagId': tagId}, name='Tag')
+
+
+def mk_tagset(ex, base, *tags):
+    return Obj('TagSet', {'tags': Tup(list(tags))}, {'__radd__': tagset_radd}, name='TagSet')
+
+
+def tagset_radd(ex, self, superTag):
+    # TagSet.__radd__: the tag decoded later (inner) goes first
+    return Obj('TagSet', {'tags': Tup([superTag] + self.fields['tags'].items)}, {'__radd__': tagset_radd}, name='TagSet')
+
+
+def tag_of_octet(k):
+    from pyvc.core import mask_and
+    return Obj('Tag', {'tagClass': mask_and(k, 0xC0), 'tagFormat': mask_and(k, 0x20), 'tagId': mask_and(k, 0x1F)},
+               name='cachedTag')
+
+
+def cache_get(ex, self, k):
+    """class invariant of SingleItemDecoder._tagCache: an entry exists only for short tags and equals
+    Tag(k & 0xC0, k & 0x20, k & 0x1F)  (established by the stores below: obligation `cache-invariant`)"""
+    k = toint(k)
+    if ex.choose(And(ex.fresh('tagCache.hit', BoolSort()), k % 32 != 31), 'cache-hit'):
+        return tag_of_octet(k)
+    raise _Raise(ExcV('KeyError'))
+
+
+def cache_set(ex, self, k, v):
+    k = toint(k)
+    want = tag_of_octet(k)
+    ex.vc('%s#cache-invariant.tag' % ex.c.id,
+          And(k % 32 != 31, *[toint(v.fields[f]) == toint(want.fields[f]) for f in ('tagClass', 'tagFormat', 'tagId')]),
+          kind='external', note='a cached Tag equals the tag denoted by its first (only) identifier octet')
+
+
+def setcache_get(ex, self, k):
+    k = toint(k)
+    if ex.choose(And(ex.fresh('tagSetCache.hit', BoolSort()), k % 32 != 31), 'setcache-hit'):
+        return mk_tagset(ex, (), tag_of_octet(k))
+    raise _Raise(ExcV('KeyError'))
+
+
+def setcache_set(ex, self, k, v):
+    k = toint(k)
+    want = tag_of_octet(k)
+    tags = v.fields['tags'].items
+    ok = len(tags) == 1
+    ex.vc('%s#cache-invariant.tagset' % ex.c.id,
+          And(k % 32 != 31, *[toint(tags[0].fields[f]) == toint(want.fields[f])
+                              for f in ('tagClass', 'tagFormat', 'tagId')]) if ok else z3.BoolVal(False),
+          kind='external', note='a cached TagSet is the single tag denoted by its identifier octet')
+
+
+def tag_region(mode, outer):
+    tag_ns = dict(TAGC, __name__='tag', Tag=FnV(mk_tag, 'tag.Tag'), TagSet=FnV(mk_tagset, 'tag.TagSet'))
+    outer_tagset = PConst(None) if not outer else PDerived(
+        lambda ex, env: mk_tagset(ex, (), Obj('Tag', {'tagClass': Int('outer.cls'), 'tagFormat': Int('outer.fmt'),
+                                                       'tagId': Int('outer.id')}, name='outerTag')))
+    c = region(
+        'stDecodeTag', 'state is stDecodeTag', mode,
+        dict(tagSet=outer_tagset, state=PConst(STATES['stDecodeTag']),
+             tagCache=PConst(Obj('dict', {}, {'__getitem__': cache_get, '__setitem__': cache_set}, name='tagCache')),
+             tagSetCache=PConst(Obj('dict', {}, {'__getitem__': setcache_get, '__setitem__': setcache_set},
+                                    name='tagSetCache'))),
+        properties=['C01', 'C09', 'C13'],
+        requires=['substrate.pos < len(substrate.data)'],
+        exit_ensures=[
+            # X.690 8.1.2: class = bits 8-7, P/C = bit 6, number = bits 5-1 or, for 11111, the following base-128 octets
+            ('class-and-form', 'lastTag.tagClass == %s - %s %% 64 and lastTag.tagFormat == (%s %% 64) - (%s %% 32)'
+             % (D0, D0, D0, D0)),
+            ('low-tag-number', '%s %% 32 != 31 ==> (lastTag.tagId == %s %% 32 and substrate.pos == %s + 1)' % (D0, D0, P0)),
+            ('high-tag-number', '%s %% 32 == 31 ==> (substrate.pos > %s + 1 and lastTag.tagId == '
+                                'X.b128_val(substrate.data, %s + 1, substrate.pos - %s - 1) and '
+                                'substrate.data[substrate.pos - 1] < 128)' % (D0, P0, P0, P0)),
+            ('tagset-grows-inward', 'tagSet.tags[0].tagClass == lastTag.tagClass and tagSet.tags[0].tagFormat == '
+                                    'lastTag.tagFormat and tagSet.tags[0].tagId == lastTag.tagId'),
+            ('next-state', 'state == stDecodeLength')],
+        may_raise={'EndOfStreamError': True, 'SubstrateUnderrunError': True},
+        loops={1: Loop(invariant=['tagId == X.b128_val(substrate.data, %s + 1, lengthOctetIdx)' % P0,
+                                  'substrate.pos == %s + 1 + lengthOctetIdx' % P0, 'lengthOctetIdx >= 0', 'tagId >= 0',
+                                  'substrate.pos <= len(substrate.data)', 'not value_yielded()'],
+                       havoc_fields=['substrate.pos'], variant='len(substrate.data) - substrate.pos')},
+        external=['class-and-form', 'low-tag-number', 'high-tag-number', 'tagset-grows-inward', 'next-state'])
+    c.id = c.id.replace('[', '[%s,' % ('inner' if outer else 'outermost'))
+    c.globals['tag'] = tag_ns
+    return c
+
+
+TAG_REGION = [tag_region('complete', False), tag_region('complete', True), tag_region('partial', False)]
+
+CONTRACTS = INTEGER + NULL + [BOOLEAN_CREATE, RAW_INDEF] + LENGTH_REGION + TAG_REGION
